@@ -34,6 +34,7 @@ def confirm(name):
         r = sh(f"git apply --check {d}/patch.diff", cwd=wt); res["patch_applies"] = r.returncode == 0
         if not res["patch_applies"]: res["error"] = r.stderr; return res
         sh(f"git apply {d}/patch.diff", cwd=wt)
+        os.makedirs(f"{wt}/target", exist_ok=True)  # some demonstrations write scratch files under <manifest dir>/target
         r = sh("cargo test --workspace --no-fail-fast --offline 2>&1", cwd=wt, env={"CARGO_TARGET_DIR": tgt})
         p, f = test_counts(r.stdout); res["existing_tests_with_patch"] = {"passed": p, "failed": f}
         res["compiles"] = p is not None
